@@ -764,7 +764,14 @@ def check_case(op, inp):
             first = _chrono_first(_key_of(by, _ref_dt(dleap, m)) for m in ref_moys(tuple(inp['t']))
                                   if True)
             want_keys = [k for k in first if k in exp]
-            if _chrono_first(keys) != want_keys:
+            got_keys = _chrono_first(keys)
+            if by == 'mph':
+                # the listing is month by month (period order), times of day ascending inside a month
+                def canon(ks):
+                    months = _chrono_first(k[0] for k in ks)
+                    return [k for mo in months for k in sorted(x for x in ks if x[0] == mo)]
+                want_keys, got_keys = canon(want_keys), (got_keys if got_keys == canon(got_keys) else got_keys + ['unordered'])
+            if got_keys != want_keys:
                 return {'required': 'groups in period order: %s' % (want_keys[:20],), 'observed': keys[:20],
                         'sig': dict(sig, fail='keys')}
         if iv in ('daily', 'monthly') and r.header.analysis_period.timestep != 1:
@@ -885,6 +892,8 @@ def _oracle_cases(ctx):
     # discontinuous collections
     for _ in range(600 if big else 90):
         t, dleap, moys, tag = _gen_disc(rng, 1500)
+        if tag == 'other-leap':
+            continue                         # header and datetimes disagree on the year: not a collection of the statement
         if tag == 'off-grid':
             bys = ('day', 'month')
         else:
